@@ -307,6 +307,42 @@ fn embedded(a: &PerformanceAttributes) -> DifficultyAttributes {
     a.difficulty_attributes()
 }
 
+/// The settings applied through the mode-agnostic builder's own setters (not through a Difficulty).
+fn settings_on_perf<'a>(st: &Settings, mut p: Performance<'a>) -> Performance<'a> {
+    p = match st.repr {
+        0 => p.mods(st.bits),
+        1 => p.mods(rosu_mods::GameModsLegacy::from_bits(st.bits)),
+        2 => p.mods(st.intermode()),
+        3 => p.mods(&st.intermode()),
+        _ => p.mods(st.lazer_mods()),
+    };
+    if let Some(cr) = st.clock_rate {
+        p = p.clock_rate(cr);
+    }
+    if let Some((v, f)) = st.ar {
+        p = p.ar(v, f);
+    }
+    if let Some((v, f)) = st.cs {
+        p = p.cs(v, f);
+    }
+    if let Some((v, f)) = st.hp {
+        p = p.hp(v, f);
+    }
+    if let Some((v, f)) = st.od {
+        p = p.od(v, f);
+    }
+    if let Some(b) = st.hardrock_offsets {
+        p = p.hardrock_offsets(b);
+    }
+    if let Some(b) = st.lazer {
+        p = p.lazer(b);
+    }
+    if let Some(n) = st.passed {
+        p = p.passed_objects(n);
+    }
+    p
+}
+
 pub fn c04_case(rng: &mut Rng, max_objects: usize) -> String {
     let c = match gen_ctx(rng, max_objects, true) {
         Ok(c) => c,
@@ -341,6 +377,11 @@ pub fn c04_case(rng: &mut Rng, max_objects: usize) -> String {
                 f.holds("try_mode succeeds", false, "try_mode failed on a convertible map");
             }
         }
+        // the settings given through the builder's own setters instead of a Difficulty: from the map
+        // (difficulty is recomputed with them) and from attributes (computed with the same settings)
+        f.eq("Performance::new(&map) + own setters", &spec.apply(settings_on_perf(&c.st, Performance::new(&c.conv))).calculate().json(), &want);
+        f.eq("Performance::new(map by value) + own setters", &spec.apply(settings_on_perf(&c.st, Performance::new(c.conv.clone()))).calculate().json(), &want);
+        f.eq("Performance::new(difficulty attrs) + own setters", &spec.apply(settings_on_perf(&c.st, Performance::new(attrs.clone()))).calculate().json(), &want);
         // the mode's own builder on the UNCONVERTED map, by reference and by value (the conversion is
         // implicit and must see the mods set afterwards, e.g. mania key mods)
         if c.src_mode != c.target {
@@ -859,6 +900,22 @@ pub fn c08_case(rng: &mut Rng, max_objects: usize) -> String {
             match &first {
                 None => first = Some(r),
                 Some(w) => f.eq(&format!("{name} == u32 bits"), &r, w),
+            }
+        }
+        // 1b. selections with mods that have no legacy bit (Classic; Blinds / Traceable for osu!) next to
+        // legacy-bit mods: owned intermode, intermode by reference and lazer mods (default settings)
+        {
+            let mut st = c.st.clone();
+            st.lazer_extra = 8 | if c.target == 0 { [0u8, 16, 32, 48][(c.st.bits as usize / 8) % 4] } else { 0 };
+            st.lazer = None;
+            let mut first = None;
+            for (repr, name) in [(2u8, "GameModsIntermode (owned)"), (3, "&GameModsIntermode"), (4, "lazer GameMods")] {
+                st.repr = repr;
+                let r = all_results(&st.difficulty(), &c.conv, &spec);
+                match &first {
+                    None => first = Some(r),
+                    Some(w) => f.eq(&format!("with Classic (and other non-legacy mods): {name} == GameModsIntermode (owned)"), &r, w),
+                }
             }
         }
         // the conversion must not depend on the representation either (mania key mods)
